@@ -310,6 +310,17 @@ def batch_names(lo, hi):
                 res['violations'].append({'label': 'afm-name', 'detail': bad[0], 'replay_func': 'replay_file', 'replay_args': args})
                 if len(res['violations']) >= 4:
                     return res
+    if lo == 0:
+        for lst in (['Abc', 'ABC', 'AbC', 'ABc'], ['F1', 'F10', 'F', 'F01'], ['A', 'Aa', 'AA', 'Aaa'], ['X0', 'XO', 'Xo', 'X00']):
+            for names in (lst, list(reversed(lst))):
+                args = [shape, [(1, 2), (0, 1)], names, [[1, 'cost', ['range', 0, 9], '1', '0'], [2, 'cost', ['enum', ['lo', 'hi']], 'lo', 'hi']],
+                        [('REQUIRES', names[1], names[2]), ('OR', ('NOT', names[3]), ('AND', names[2], names[1]))]]
+                res['instances'] += 1
+                res['native_runs'] += 1
+                res['nontrivial'] += 1
+                bad = replay_file(*args)
+                if bad:
+                    res['violations'].append({'label': 'afm-name', 'detail': bad[0], 'replay_func': 'replay_file', 'replay_args': args})
     # lexer contract validation
     for w in cand[lo:hi] + KEYWORDS + ['aB', 'A_b', '1A']:
         lexer = AFMLexer(InputStream(w))
